@@ -73,6 +73,9 @@ def cases(tier):
     for m in EK.big_models(False, tier):
         for route in ('cls', 'proc', 'cfg', 'potable'):
             out.append(dict(m=m, route=route, spelling='setfl'))
+    for m in EK.big_grid_models(False):
+        for route in (('cls', 'potable') if tier == 'quick' else ('cls', 'proc', 'cfg', 'potable')):
+            out.append(dict(m=m, route=route, spelling='setfl', big=True))
     # histories: a model with [Species] overrides is built first, then the same elements without overrides
     for els in (['Al'], ['Al', 'Cu'], ['Fe', 'Ni', 'Al']):
         for route in ('cfg', 'potable', 'cls'):
@@ -119,7 +122,8 @@ def check_setfl(m, route, text, kind='alloy', els_given=None):
     for blk in t['blocks']:
         el = blk['el']
         Z, mass, a, lat = EK.ref_meta(m, el, route)
-        if blk['Z'] != Z or not close(blk['mass'], mass) or not close(blk['a'], a) or blk['lattice'] != lat:
+        rel = lambda x, y: abs(x - y) <= 1e-12 * abs(y)   # noqa  (printed with 17 significant digits: relative, no absolute floor)
+        if blk['Z'] != Z or not rel(blk['mass'], mass) or not rel(blk['a'], a) or blk['lattice'] != lat:
             V('metadata', 'element %s: metadata %r, expected %r' % (el, (blk['Z'], blk['mass'], blk['a'], blk['lattice']), (Z, mass, a, lat)))
         for i, v in enumerate(blk['embed']):
             r = ref['F'][el](i * drho).v
